@@ -22,7 +22,15 @@ type accessRow struct {
 
 var syncFields = map[string]bool{"auxJobsLock": true, "stopLock": true, "stopCond": true, "jobChan": true, "wakeupChan": true, "stopChan": true}
 
+// synchronisation events (C17, deadlock part): lock acquisitions, blocking channel operations, condition waits and calls
+// made while a mutex is held, each with the mutexes held at that point (in acquisition order)
+type syncRow struct {
+	unit, kind, what string
+	held             []string
+}
+
 type accWalker struct {
+	sync []syncRow
 	rows []accessRow
 	recv map[string]bool // receiver-like identifiers whose fields we track
 	viaField string      // "r": also track r.r.<field> (the Registry reached from a RequireModule)
@@ -136,6 +144,31 @@ func (w *accWalker) expr(e ast.Expr, unit, usage string, locks []string, write, 
 	}
 }
 
+// syncExpr records what an expression statement does to other threads: a receive, a condition wait, a call made with a mutex held
+func (w *accWalker) syncExpr(e ast.Expr, unit string, held []string) {
+	ast.Inspect(e, func(nd ast.Node) bool {
+		switch x := nd.(type) {
+		case *ast.FuncLit:
+			return false // a unit of its own
+		case *ast.UnaryExpr:
+			if x.Op == token.ARROW {
+				w.sync = append(w.sync, syncRow{unit, "chan-recv", exprString(x.X), append([]string{}, held...)})
+			}
+		case *ast.CallExpr:
+			f := exprString(x.Fun)
+			switch {
+			case strings.HasSuffix(f, ".Wait"):
+				w.sync = append(w.sync, syncRow{unit, "cond-wait", strings.TrimSuffix(f, ".Wait"), append([]string{}, held...)})
+			case len(held) > 0:
+				w.sync = append(w.sync, syncRow{unit, "call-holding", f, append([]string{}, held...)})
+			default:
+				w.sync = append(w.sync, syncRow{unit, "call", f, nil})
+			}
+		}
+		return true
+	})
+}
+
 var litCount = map[string]int{}
 
 func (w *accWalker) funcLit(fl *ast.FuncLit, parent, usage string) {
@@ -161,12 +194,14 @@ func (w *accWalker) block(stmts []ast.Stmt, unit, usage string, locks []string) 
 		case *ast.ExprStmt:
 			if l, op := lockCall(s.X); l != "" {
 				if op == "Lock" {
+					w.sync = append(w.sync, syncRow{unit, "lock", l, append([]string{}, held...)})
 					held = append(held, l)
 				} else {
 					held = without(held, l)
 				}
 				continue
 			}
+			w.syncExpr(s.X, unit, held)
 			w.expr(s.X, unit, usage, held, false, false)
 		case *ast.DeferStmt:
 			if l, op := lockCall(s.Call); l != "" && op == "Unlock" {
@@ -191,6 +226,7 @@ func (w *accWalker) block(stmts []ast.Stmt, unit, usage string, locks []string) 
 			w.expr(s.X, unit, usage, held, true, false)
 			w.expr(s.X, unit, usage, held, false, false)
 		case *ast.SendStmt:
+			w.sync = append(w.sync, syncRow{unit, "chan-send", exprString(s.Chan), append([]string{}, held...)})
 			if fl, ok := s.Value.(*ast.FuncLit); ok {
 				u := "value"
 				if strings.HasSuffix(exprString(s.Chan), ".jobChan") {
@@ -237,10 +273,22 @@ func (w *accWalker) block(stmts []ast.Stmt, unit, usage string, locks []string) 
 			w.expr(s.X, unit, usage, held, false, false)
 			w.block(s.Body.List, unit, usage, held)
 		case *ast.SelectStmt:
+			hasDefault := false
+			for _, c := range s.Body.List {
+				if c.(*ast.CommClause).Comm == nil {
+					hasDefault = true
+				}
+			}
+			if !hasDefault {
+				w.sync = append(w.sync, syncRow{unit, "select-blocking", "", append([]string{}, held...)})
+			}
 			for _, c := range s.Body.List {
 				cc := c.(*ast.CommClause)
 				if cc.Comm != nil {
+					// the communication of a select arm is part of the select (recorded above), not a blocking operation of its own
+					n0 := len(w.sync)
 					w.block([]ast.Stmt{cc.Comm}, unit, usage, held)
+					w.sync = w.sync[:n0]
 				}
 				w.block(cc.Body, unit, usage, held)
 			}
@@ -325,6 +373,55 @@ func genLoopAccess() {
 	out := "(* GENERATED by /verif/translator from eventloop/eventloop.go — do not edit *)\nFrom Coq Require Import String List.\nImport ListNotations.\n"
 	out += "(* unit, how the unit is used (func / aux / job / afterfunc / go / value), field, is a write, mutexes held, through sync/atomic *)\n"
 	out += "Definition loop_access : list (string * string * string * bool * list string * bool) := [\n  " + strings.Join(rows, ";\n  ") + "\n]%string.\n"
+	// synchronisation events: unit, kind (lock / chan-send / chan-recv / select-blocking / cond-wait / call-holding / call), what, mutexes held (acquisition order)
+	// callees: a call of a function or method declared in this file is resolved to its unit; everything else is external
+	declared := map[string]string{}  // plain functions by name
+	declaredM := map[string]bool{}    // Type.method
+	_ = declaredM
+	declaredMm := map[string]string{}
+	for _, d := range f.Decls {
+		if fd, ok := d.(*ast.FuncDecl); ok && fd.Body != nil {
+			if r := recvName(fd); r != "" {
+				declaredMm[r+"."+fd.Name.Name] = r + "." + fd.Name.Name
+			} else {
+				declared[fd.Name.Name] = fd.Name.Name
+			}
+		}
+	}
+	var srows []string
+	sseen := map[string]bool{}
+	for _, r := range w.sync {
+		if r.kind == "call" || r.kind == "call-holding" {
+			recvType := map[string]string{"loop": "EventLoop", "t": "Timer", "timeout": "Timer", "i": "Interval", "interval": "Interval"}
+			parts := strings.Split(r.what, ".")
+			resolved := ""
+			switch {
+			case len(parts) == 1:
+				if u, ok := declared[parts[0]]; ok && !strings.Contains(u, ".") {
+					resolved = u
+				}
+			case len(parts) == 2 && recvType[parts[0]] != "":
+				if u, ok := declaredMm[recvType[parts[0]]+"."+parts[1]]; ok {
+					resolved = u
+				}
+			}
+			if resolved != "" {
+				r.what = resolved
+			} else {
+				r.what = "ext:" + r.what
+			}
+		}
+		var ls []string
+		for _, l := range r.held {
+			ls = append(ls, coqStr(l))
+		}
+		s := fmt.Sprintf("(%s, %s, %s, [%s])", coqStr(r.unit), coqStr(r.kind), coqStr(r.what), strings.Join(ls, "; "))
+		if !sseen[s] {
+			sseen[s] = true
+			srows = append(srows, s)
+		}
+	}
+	out += "Definition loop_sync : list (string * string * string * list string) := [\n  " + strings.Join(srows, ";\n  ") + "\n]%string.\n"
 	writeIfChanged("LoopAccess.v", out)
 }
 
